@@ -597,6 +597,15 @@ func main() {
 		}
 	}
 	l = append(l, scenario(scen{name: "2dc/local-logical-near-limit", zones: two, alloc: map[string]int{"dc1": 1, "dc2": 2}, pre: 2, tiers: "quick", build: nearLimit}))
+	// the same with the collected maximum plus the count landing exactly on the limit (65500 + 36 = 2^16, two suffix bits)
+	atLimit := func(w *world) ([]string, []func()) {
+		return []string{"local1", "global", "local2"}, []func(){
+			func() { w.request(1, "dc1", 65500); w.request(1, "dc1", 1) },
+			func() { w.request(1, G, 36); w.request(1, G, 1) },
+			func() { w.request(2, "dc2", 1) },
+		}
+	}
+	l = append(l, scenario(scen{name: "2dc/local-logical-at-limit", zones: two, alloc: map[string]int{"dc1": 1, "dc2": 2}, pre: 2, tiers: "quick", build: atLimit}))
 	// two members want the same allocator leadership: dc2's allocator is led by server 2 and
 	// server 1 campaigns for it as well (its view of the leadership is late)
 	contend := func(w *world) ([]string, []func()) {
